@@ -574,7 +574,8 @@ impl<'a, 'b> Renderer<'a, 'b> {
                     self.last_members = vec![];
                     let t = self.ty_at(m, path);
                     self.inter_member = false;
-                    part_members.push(if t.s.trim_start().starts_with('{') && t.s.trim_end().ends_with('}') && !t.s.contains("} & {") { Some(self.last_members.clone()) } else { None });
+                    // (a mapped type `{ [K in ...]: T }` is not an object literal to the compiler's syntactic merge)
+                    part_members.push(if t.s.trim_start().starts_with('{') && t.s.trim_end().ends_with('}') && !t.s.contains("} & {") && !t.s.trim_start().starts_with("{ [K in ") { Some(self.last_members.clone()) } else { None });
                     path.pop();
                     parts.push(need(t, Prec::Inter));
                 }
